@@ -28,6 +28,7 @@ func init() {
 				ref[n] = d
 			}
 			names := []string{fmt.Sprintf("c%d-a", c), fmt.Sprintf("c%d-b", c), fmt.Sprintf("C%d-A", c), fmt.Sprintf("c%d\xffz", c), "utf8-light", fmt.Sprintf("c%d é", c),
+				"", // the empty name
 				// names that sort after, and before, every name registered so far
 				fmt.Sprintf("zz%09d", c), fmt.Sprintf("\xfe%09d", c), fmt.Sprintf(" %09d", 999999999-c), fmt.Sprintf("\x00%09d", 999999999-c)}
 			t := g.do("newtable")
@@ -165,10 +166,17 @@ func init() {
 			r := g.r
 			var viol, known []string
 			// extend the registry: mostly plain names, sometimes the three hostile classes
-			for i := 0; i < r.n(3); i++ {
+			nreg := r.n(3)
+			if c%40 == 5 {
+				nreg = 1 + r.n(2)
+			}
+			for i := 0; i < nreg; i++ {
 				n := fmt.Sprintf("style%d-%d", c, i)
 				if r.chance(1, 3) {
 					n = fmt.Sprintf("Corp-Style%d-%d", c, i) // plain names may contain upper-case letters
+				}
+				if c%40 == 5 && i == 0 {
+					n = "" // the empty string is a name like any other: registered, listed, selectable
 				}
 				switch r.n(12) {
 				case 0:
